@@ -25,7 +25,10 @@ type thread struct {
 	fn        value
 	args      []value
 	noPreempt int
-	spawned   bool // started by a `go` statement of the code under test (not by the harness)
+	spawned   bool                    // started by a `go` statement of the code under test (not by the harness)
+	spinAt    map[ssa.Instruction]int // polls (non-blocking select taking default) since another thread last ran
+	spinEpoch int
+	mustYield bool
 }
 
 // envEvent is an environment transition (timer firing, context deadline) that may
@@ -191,6 +194,21 @@ func (th *thread) reschedule(exiting bool) {
 			}
 		}
 		selfEnabled := !exiting && th.enabled()
+		if th.mustYield && selfEnabled {
+			var others []*thread
+			for _, t := range cands {
+				if t != th {
+					others = append(others, t)
+				}
+			}
+			if len(others) == 0 && len(evs) == 0 {
+				r.violation("deadlock", "deadlock", fmt.Sprintf("livelock: %s polls in a loop and no other thread or event can make progress", th.name), nil, th.top)
+				r.finish(&abortPath{"done", "livelock"})
+				panic(abortPath{"killed", ""})
+			}
+			// give way without charging a preemption
+			cands, selfEnabled = others, false
+		}
 		if len(cands) == 0 && len(evs) == 0 && len(r.quiesce) > 0 && !r.quiesceRan {
 			r.quiesceRan = true
 			cbs := r.quiesce
@@ -261,12 +279,14 @@ func (th *thread) reschedule(exiting bool) {
 			e.done = true
 			r.schedLog = append(r.schedLog, "env: "+e.name)
 			e.fire(th)
+			r.schedEpoch++
 			continue // state changed; pick again
 		}
 		next := order[choice]
 		if next == th {
 			return
 		}
+		r.schedEpoch++
 		next.wake <- struct{}{}
 		if exiting {
 			panic(abortPath{"killed", ""}) // unwinds this goroutine silently
@@ -602,6 +622,20 @@ func selectOp(fr *frame, instr *ssa.Select) value {
 	if len(rs) > 0 {
 		chosen = rs[r.choose(len(rs), "select")]
 	}
+	if !instr.Blocking && chosen < 0 && !r.cfg.BgLowPrio || !instr.Blocking && chosen < 0 && !th.spawned {
+		// polling: the same thread takes the default branch of the same select again although no
+		// other thread has run in between - it is busy-waiting for somebody else's progress.
+		// Fairness: it has to give way (a free switch) before it may poll again.
+		if th.spinEpoch != r.schedEpoch || th.spinAt == nil {
+			th.spinAt, th.spinEpoch = map[ssa.Instruction]int{}, r.schedEpoch
+		}
+		th.spinAt[instr]++
+		if th.spinAt[instr] >= 2 {
+			th.mustYield = true
+			th.reschedule(false)
+			th.mustYield = false
+		}
+	}
 	res := tuple{BV(64, uint64(int64(chosen))), falseT}
 	var recvVals []value
 	for i, st := range instr.States {
@@ -649,6 +683,10 @@ func selectOp(fr *frame, instr *ssa.Select) value {
 // addEvent registers an environment event.
 func (r *Run) addEvent(name string, fire func(th *thread)) *envEvent {
 	e := &envEvent{name: name, fire: fire}
+	if r.cfg.Params["timersNeverFire"] == 1 {
+		// harness assumption: no timer / timeout / ticker elapses during the scenario
+		e.stopped = true
+	}
 	r.events = append(r.events, e)
 	return e
 }
